@@ -172,6 +172,7 @@ type Clause struct {
 	CallK  int
 	Stmts  []GhostStmt
 	Words  []string
+	Type   *TypeExpr // ghostlocal
 }
 
 type GhostStmt struct {
